@@ -30,6 +30,11 @@ type FullScenario struct {
 	UDPBook  bool         `json:"udp_book"`       // the proxy method is a udp entry of the ProxyBook
 	Partial  bool         `json:"partial"`
 	Seed     uint64       `json:"seed"`
+	// OutageDials: the server (or the CDN edge) refuses that many connection
+	// attempts before it is reachable; the client retries every 3 s, so the
+	// outage lasts longer than the 180 s the server tolerates between a
+	// credential's timestamp and its own clock
+	OutageDials int `json:"outage_dials,omitempty"`
 }
 
 var fullMethods = []string{"shadowsocks", "a", "openvpn-udp1", "x-1.2_3", "twelve-chars"}
@@ -57,6 +62,10 @@ func genFull(g *Gen) any {
 	sc.CloseStreams = g.Bool(0.5)
 	sc.CloseSession = g.Pick(0, 1, 1, 2)
 	sc.UDPBook = cp.UDP && g.Bool(0.5)
+	if sc.Seed%6 == 1 {
+		sc.OutageDials = 62 + int(sc.Seed>>8)%10
+		sc.Client.NumConn = min(sc.Client.NumConn, 1)
+	}
 	return sc
 }
 
@@ -115,6 +124,13 @@ func runFull(c *Ctx, scAny any) {
 		return
 	}
 	cdn := strings.EqualFold(cp.Transport, "cdn")
+	if sc.OutageDials > 0 {
+		addr := "10.0.0.2:443"
+		if cdn {
+			addr = "10.0.0.8:443"
+		}
+		c.Net.DialFail[addr] = sc.OutageDials
+	}
 	var sesh *mux.Session
 	finished := false
 	pending := 0
